@@ -1,16 +1,21 @@
 import Wayfind.Proofs.ParseWf
+import Wayfind.Proofs.ParserEq
 import Wayfind.Spec.Grammar
 import Wayfind.Generated.Facts
 
 /-! # C11 — the parser accepts exactly the documented language, decoded faithfully
-`Spec/Grammar.lean` states the language (`Accepts`) and the decoding (`specParse`) independently of the code's cursor
-arithmetic. Proved here: every accepted template is decoded into well-formed part lists — literal parts non-empty,
-literal text and parameters strictly alternating (no two touching parameters survive, adjacent literal text is one
-part) — which is exactly the precondition of every tree theorem (C01–C10), so the chain *template string → parser →
-tree → search* is closed.
-Status: **partial** — `parseTemplates input = .ok ts ↔ specParse input = some ts` (acceptance and decoding equal the
-grammar's) is tied exhaustively by the check on every string up to the tier's length over the syntax alphabet, in
-both directions and on every part; it is not yet a Lean theorem. -/
+`Spec/Expand.lean` and `Spec/Grammar.lean` state the language independently of the code's cursor arithmetic: a
+template is a sequence of escapes, literal bytes and groups delimited by matching parentheses (non-empty, escapes
+honoured); every expansion must start with `/`; outside braces a backslash makes the next byte literal (a trailing
+backslash is itself literal) and every other byte is copied verbatim; `{…}` up to the first `}` must be `name`,
+`*name`, `name:constraint` or `*name:constraint` with non-empty parts free of `: * { } ( ) /`; two parameters may not
+touch and no name may repeat.
+**Proved** (`C11_parser_is_the_grammar`): the model of `ParsedTemplate::new` — a transcription of the Rust cursor /
+group / depth bookkeeping, with its nested re-scan of group contents, brace counting and `seen_parameters` positions —
+accepts exactly the templates of that grammar and produces exactly its expansions and parts, in the same order; it
+reports an error exactly when the grammar rejects. The proof also shows that the fuel of both recursive definitions
+suffices. The model ↔ code tie is the exhaustive comparison of every string up to the tier's length (accept/reject,
+expansions, every part) in every run. -/
 
 theorem C11_accepted_templates_decode_to_wellformed_parts (input : Bytes) (ts : List (Bytes × List Part))
     (h : parseTemplates input = .ok ts) : ∀ t ∈ ts, wfParts t.2 = true :=
@@ -28,3 +33,34 @@ example : specParse [47, 97, 92, 123, 98, 40, 47, 123, 120, 125, 41] =
 theorem C11_invalid_name_characters :
     Generated.invalidParamChars = [58, 42, 123, 125, 40, 41, 47] ∧ invalidChars = Generated.invalidParamChars ∧
     invalidNameChars = Generated.invalidParamChars := by decide
+
+/-- **The parser is the grammar.** -/
+theorem C11_parser_is_the_grammar (input : Bytes) (ts : List (Bytes × List Part)) :
+    parseTemplates input = .ok ts ↔ specParse input = some ts :=
+  parseTemplates_eq_specParse input ts
+
+theorem C11_accepts_iff (input : Bytes) : (∃ ts, parseTemplates input = .ok ts) ↔ Accepts input = true := by
+  unfold Accepts
+  constructor
+  · rintro ⟨ts, h⟩; rw [(parseTemplates_eq_specParse input ts).1 h]; rfl
+  · intro h
+    cases hs : specParse input with
+    | none => rw [hs] at h; cases h
+    | some ts => exact ⟨ts, (parseTemplates_eq_specParse input ts).2 hs⟩
+
+theorem C11_rejects_iff (input : Bytes) : (∃ e, parseTemplates input = .error e) ↔ specParse input = none :=
+  parseTemplates_error_iff input
+
+/-- decoding, in the property's words: a backslash makes the following byte literal, a trailing backslash is itself
+literal, a brace ends the literal run, every other byte is copied verbatim -/
+theorem C11_literal_decoding (b c : Byte) (rest : Bytes) :
+    litRun (92 :: c :: rest) = (c :: (litRun rest).1, (litRun rest).2) ∧ litRun [92] = ([92], []) ∧
+    litRun (123 :: rest) = ([], 123 :: rest) ∧ litRun (125 :: rest) = ([], 125 :: rest) ∧
+    (b ≠ 92 → b ≠ 123 → b ≠ 125 → litRun (b :: rest) = (b :: (litRun rest).1, (litRun rest).2)) := by
+  refine ⟨by simp [litRun], by simp [litRun], by simp [litRun], by simp [litRun], ?_⟩
+  intro h1 h2 h3
+  rw [litRun.eq_def]
+  split
+  · rename_i heq; cases heq
+  · rename_i heq; injection heq with e1 e2; exact absurd e1 h1
+  · rename_i heq; injection heq with e1 e2; subst e1 e2; simp [h2, h3]
